@@ -97,6 +97,27 @@ pub fn io_fail_multi(_args: &[String]) -> String {
             }
         }
     }
+    // visibly finished bars whose final frame failed are dropped in both orders: no panic, siblings keep working
+    for order in 0..2 {
+        for budget in [0usize, 1, 4] {
+            let t = Failing { budget: Arc::new(AtomicUsize::new(budget)) };
+            let mp = MultiProgress::with_draw_target(ProgressDrawTarget::term_like(Box::new(t)));
+            let a = mp.add(ProgressBar::new(10));
+            let b = mp.add(ProgressBar::new(10));
+            let c = mp.add(ProgressBar::new(10));
+            let r = catch_unwind(AssertUnwindSafe(|| {
+                a.finish(); b.abandon();
+                if order == 0 { drop(a); drop(b); } else { drop(b); drop(a); }
+                c.inc(1);
+                let _ = mp.println("x");
+                let _ = mp.clear();
+            }));
+            if let Err(e) = r {
+                std::mem::forget(c); std::mem::forget(mp);
+                return format!("{{\"found\": true, \"clause\": \"C18 dropping visibly finished bars whose last draw failed must not panic (nor poison the MultiProgress)\", \"input\": {{\"ops_before_failure\": {}, \"drop_order\": {}, \"panic\": {}}}, \"rerun\": \"replay io_fail_multi\"}}", budget, order, crate::js(&msg(e)));
+            }
+        }
+    }
     "{\"found\": false}".to_string()
 }
 
